@@ -65,5 +65,18 @@ func init() {
 			return nil, err
 		}
 		return e.Queue(capacity, ie, id, def)
+	}, Refuse: func(cmd string) {
+		e, err := sharedEnv()
+		if err != nil {
+			return
+		}
+		var once sync.Once
+		e.Srv.SetFault(func(pos int, args [][]byte) string {
+			hit := ""
+			if string(args[0]) == cmd {
+				once.Do(func() { hit = "BUSY verif: injected refusal" })
+			}
+			return hit
+		})
 	}})
 }
